@@ -1135,6 +1135,12 @@ class Ctx:
                     return cands[0]
                 raise Inconclusive(f"ambiguous free function {plain}")
             return None
+        # enum-variant / tuple-struct constructors used as function values (`map(Eyeball::Timeout)`): the dump
+        # has them as `fn Enum::Variant(..)`
+        if not plain.startswith("<"):
+            cands = [f for f in self.prog.by_name.get(plain, []) if len(f.args) == len(args)]
+            if cands and all(f.args == cands[0].args and f.text == cands[0].text for f in cands[1:]):
+                return cands[0]
         # pin-project generated inherent impls: `module::_::<impl Type<..>>::project`
         mpp = re.search(r"::_::<impl ([A-Za-z_][A-Za-z0-9_:]*)", c)
         if mpp:
